@@ -28,6 +28,7 @@ type Func struct {
 	where   map[ast.Node]loc // every node stored in a block
 	boolDef map[types.Object]ast.Expr
 	assigns map[types.Object]int
+	plain   map[types.Object]int // assignments only (address-taking not counted)
 	defs    map[types.Object]ast.Expr
 }
 
@@ -39,7 +40,7 @@ type loc struct {
 // New analyses a body. Nested function literals are opaque here; analyse them
 // separately with New(lit.Body, ...).
 func New(body *ast.BlockStmt, info *types.Info) *Func {
-	f := &Func{Body: body, Info: info, where: map[ast.Node]loc{}, boolDef: map[types.Object]ast.Expr{}, assigns: map[types.Object]int{}}
+	f := &Func{Body: body, Info: info, where: map[ast.Node]loc{}, boolDef: map[types.Object]ast.Expr{}, assigns: map[types.Object]int{}, plain: map[types.Object]int{}}
 	f.G = cfg.New(body, func(call *ast.CallExpr) bool { return mayReturn(call, info) })
 	n := len(f.G.Blocks)
 	f.live = make([]bool, n)
@@ -177,6 +178,7 @@ func (f *Func) collectAssignments() {
 					continue
 				}
 				f.assigns[obj]++
+				f.plain[obj]++
 				if len(s.Lhs) == len(s.Rhs) {
 					if tv, ok := f.Info.Types[s.Rhs[i]]; ok && tv.Type != nil {
 						if b, ok := tv.Type.Underlying().(*types.Basic); ok && b.Info()&types.IsBoolean != 0 {
@@ -211,6 +213,10 @@ func (f *Func) collectAssignments() {
 		return true
 	})
 }
+
+// WrittenOnce is AssignedOnce without counting address-taking: the variable is assigned
+// by at most one statement (it may still be written through a pointer taken of it).
+func (f *Func) WrittenOnce(obj types.Object) bool { return f.plain[obj] <= 1 }
 
 // AssignedOnce reports whether a local object is written at most once in this body
 // (parameters: never), i.e. an expression rooted at it denotes one value throughout.
